@@ -16,6 +16,7 @@ thresholds (structural), the three depth estimates, compiled IR + which builder 
 from __future__ import annotations
 
 import math
+import time
 import warnings
 
 import numpy as np
@@ -221,7 +222,7 @@ def guarded(fn):
             return None, type(ex).__name__
 
 
-def observe(e, wrts, V, pt, values_ok, with_ir=False):
+def observe(e, wrts, V, pt, values_ok, compile_too=True):
     """all observables of one tree under the current thresholds"""
     import optyx.core.autodiff as AD
     import optyx.core.compiler as C
@@ -239,7 +240,7 @@ def observe(e, wrts, V, pt, values_ok, with_ir=False):
         o["compile"] = (fn, err)
         o["value"] = guarded(lambda: K.fl(fn(arr))) if fn is not None else (None, err)
         o["evaluate"] = guarded(lambda: K.fl(e.evaluate(dict(pt))))
-    else:
+    elif compile_too:
         o["compile"] = guarded(lambda: C.compile_expression(e, V))
     return o
 
@@ -364,31 +365,38 @@ def py_depths(e):
 
 def formulas(rng, thorough):
     """(family, op, n) triples of this run"""
-    fam_names_small = None
     out = []
     sizes_val = [2, 399, 400, 401, 900]
     U = gen.Universe(rng)
     fams, _ = families(U, rng)
     names = list(fams)
+    ops = ["+", "-", "*", "/"]
     # every base-term kind just above the switch (the per-kind branches of the explicit-stack code)
-    for f in names:
-        for op in (["+", "-", "*", "/"] if thorough else [rng.choice(["+", "-"]), rng.choice(["*", "/"])]):
+    for i, f in enumerate(names):
+        for op in (ops if thorough else [ops[(i + rng.randint(0, 3)) % 4]]):
             out.append((f, op, 401))
-    # all operators × all sizes on a few families
+    # all operators × all sizes
     core_fams = ["var", "sq", "un:sin", "un:atan", "vec:dot", "vec:ps", "param"]
-    for f in (core_fams if thorough else ["sq"] + rng.sample(core_fams, 2)):
-        for op in ["+", "-", "*", "/"]:
+    for f in (core_fams if thorough else [rng.choice(core_fams)]):
+        for op in ops:
             for n in sizes_val:
                 out.append((f, op, n))
+    if not thorough:
+        for f in rng.sample(core_fams, 3):
+            for n in (399, 400):
+                out.append((f, rng.choice(ops), n))
     # structure-level observables far beyond the recursion limit
-    deep = [5000, 20000] if thorough else [20000]
-    for f in (["var", "sq", "un:log", "un:asinh", "vec:fro", "vec:us:sin"] if thorough else ["sq", rng.choice(["un:log2", "vec:msv", "un:acosh"])]):
-        for op in (["+", "-", "*", "/"] if thorough else [rng.choice(["+", "*"]), rng.choice(["-", "/"])]):
-            for n in deep:
-                out.append((f, op, n))
+    if thorough:
+        for f in ["var", "sq", "un:log", "un:asinh", "vec:fro", "vec:us:sin"]:
+            for op in ops:
+                for n in (5000, 20000):
+                    out.append((f, op, n))
+    else:
+        out.append((rng.choice(["sq", "var", "un:log2", "vec:msv"]), rng.choice(["+", "-"]), 20000))
+        out.append((rng.choice(["sq", "un:acosh", "vec:fro", "param"]), rng.choice(["*", "/"]), 5000))
     # small n: association variants incl. right-deep
-    for f in rng.sample(names, 12 if thorough else 5):
-        for op in ["+", "-", "*", "/"]:
+    for f in rng.sample(names, 12 if thorough else 6):
+        for op in ops:
             out.append((f, op, rng.choice([2, 3, 7, 30])))
     return out
 
@@ -405,6 +413,7 @@ def run(ctx) -> core.Report:
                            "with n ≥ 2 whose observations were all compared")
     ids = Ids()
     lines, metas = [], []
+    t_start = time.time()
     fails = rep.oracle_failures
     todo = formulas(rng, thorough)
     rep.histogram["formulas"] = len(todo)
@@ -426,12 +435,16 @@ def run(ctx) -> core.Report:
 
         obs = {}
         settings = [("default", None), ("iter", 0)] + ([("rec", BIG)] if n <= 401 else [])
+        if n > 900:
+            wrts = wrts[:1]  # one differentiation variable on the very deep formulas (cost)
         for bname, e in builds.items():
             for sname, thr in settings:
                 if bname != "left" and sname == "rec" and n > 30:
                     continue
+                if n > 900 and bname != "left" and sname != "default":
+                    continue
                 with Thresholds(thr):
-                    obs[(bname, sname)] = observe(e, wrts, V, pt, values_ok)
+                    obs[(bname, sname)] = observe(e, wrts, V, pt, values_ok, compile_too=(n <= 900 or bname == "left"))
         # ---- no exception may escape (RecursionError in particular)
         for (bname, sname), o in obs.items():
             if bname == "right":
@@ -451,9 +464,12 @@ def run(ctx) -> core.Report:
             # variables: exactly the variables of the terms
             if o["vars"][0] is not None and o["vars"][0] != want_vars:
                 fail(f"variable set differs on {tag}", got=o["vars"][0][:12], want=want_vars[:12], build=bname, setting=sname)
-            # degree: equal across builds and thresholds
-            if o["degree"][0] is not None and ref_o["degree"][0] is not None and o["degree"][0] != ref_o["degree"][0]:
-                fail(f"degree differs on {tag}", got=o["degree"][0][1], want=ref_o["degree"][0][1], build=bname, setting=sname)
+            # degree: equal across builds and thresholds.  Known finding F26b: VectorExpressionSum / MatrixSum have
+            # no degree case (None), so the vectorised build is compared with itself across thresholds only
+            # (the fixed probe below reports the finding once)
+            dref = obs[("vector", "default")] if bname == "vector" else ref_o
+            if o["degree"][0] is not None and dref["degree"][0] is not None and o["degree"][0] != dref["degree"][0]:
+                fail(f"degree differs on {tag}", got=o["degree"][0][1], want=dref["degree"][0][1], build=bname, setting=sname)
             # values
             if values_ok and ref_v is not None:
                 for k2 in ("value", "evaluate"):
@@ -527,6 +543,10 @@ def run(ctx) -> core.Report:
             rep.samples.append(dict(base, builds=sorted(builds), vars=list(want_vars)[:6], value=ref_v,
                                     degree=ref_o["degree"][0][1] if ref_o["degree"][0] else None))
 
+    # ---- fixed probe of the known finding F26b (exactly one failure, matched by its kind)
+    pr = probe_vectorised_degree()
+    if pr is not None:
+        fails.append(pr)
     # ---- solve results: the same least-squares objective built three ways
     solve_ns = [2, 399, 400, 401, 900] if thorough else [2, 400, 401]
     for n in solve_ns:
@@ -535,7 +555,10 @@ def run(ctx) -> core.Report:
         if r is not None:
             fails.append(r)
 
+    t_py = time.time() - t_start
     outs = run_lean_unit(lines)
+    rep.histogram["wall_python_s"] = round(t_py, 1)
+    rep.histogram["wall_lean_s"] = round(time.time() - t_start - t_py, 1)
     rep.evaluations = len(lines) + sum(1 for _ in todo)
     for (base, bname, what, impl), model in zip(metas, outs):
         if impl != model:
@@ -547,6 +570,23 @@ def run(ctx) -> core.Report:
             rep.histogram["builder:" + b] = rep.histogram.get("builder:" + b, 0) + 1
     rep.nontrivial = {hash(x) for x in rep.nontrivial}
     return rep
+
+
+def probe_vectorised_degree():
+    """(x+1).sum() / X.sum() must have the degree of their term-by-term accumulations"""
+    from optyx import VectorVariable, MatrixVariable
+
+    x = VectorVariable("x", 3)
+    X = MatrixVariable("X", 2, 2)
+    clear_caches()
+    pairs = [("(x+1).sum()", (x + 1).sum(), (x[0] + 1) + (x[1] + 1) + (x[2] + 1)),
+             ("X.sum()", X.sum(), X[0, 0] + X[0, 1] + X[1, 0] + X[1, 1])]
+    bad = [(nm, v.degree, a.degree) for nm, v, a in pairs if v.degree != a.degree]
+    if not bad:
+        return None
+    return {"kind": "vectorised_sum_degree_none", "what": "degree of the vectorised build differs from the accumulation",
+            "cases": [{"expr": nm, "vectorised": dv, "accumulated": da} for nm, dv, da in bad],
+            "family": "probe", "op": "+", "n": 3}
 
 
 def solve_case(n, seed):
@@ -633,7 +673,7 @@ def check_formula(fam, op, n, seed):
                 return {"what": f"variable set differs on {bname}/{sname}", "family": fam, "op": op, "n": n, "seed": seed}
             if first is None:
                 first = o
-            if o["degree"][0] != first["degree"][0]:
+            if bname != "vector" and o["degree"][0] != first["degree"][0]:
                 return {"what": f"degree differs on {bname}/{sname}", "family": fam, "op": op, "n": n, "seed": seed}
             if values_ok and ref_v is not None:
                 for k2 in ("value", "evaluate"):
@@ -667,6 +707,10 @@ def search(ctx, rep):
 
 def replay(payload) -> bool:
     f = payload["failure"]
+    if f.get("family") == "probe":
+        r = probe_vectorised_degree()
+        print("probe:", r)
+        return r is None
     if f.get("family") == "least-squares":
         r = solve_case(int(f["n"]), int(f.get("seed", 0)))
         print("solve_case:", r)
